@@ -91,7 +91,8 @@ CAT = {}
 
 
 def _reg(name, kind, **kw):
-    d = {"kind": kind, "nan": False, "frame": False, "n_jobs": False, "inverse": False, "slow": False}
+    d = {"kind": kind, "nan": False, "frame": False, "n_jobs": False, "inverse": False, "slow": False,
+         "thorough_only": False}
     d.update(kw)
     CAT[name] = d
 
@@ -119,25 +120,25 @@ for _n in ["ColumnConcatenator", "DWT", "HOG1D", "TSInterpolator", "MatrixProfil
            "PlateauFinder", "DerivativeSlope", "RandomIntervalFeatureExtractor"]:
     _reg(_n, "panel")
 _reg("SFA", "panel", n_jobs=True)
-_reg("ContractedShapelet", "panel", slow=True)
+_reg("Shapelet", "panel", slow=True)
 
-for _n in ["Naive-last", "Naive-mean-sp", "Naive-drift", "Poly", "Theta", "ExpSmoothing", "AutoETS",
-           "TransformedTarget", "Multiplex", "Reduce-multioutput", "OnlineEnsemble"]:
+for _n in ["Naive-last", "Naive-mean-sp", "Naive-drift", "Poly", "Theta", "AutoETS",
+           "TransformedTarget", "Reduce-multioutput"]:
+    _reg(_n, "forecaster", exog=True)     # accept (and ignore or use) exogenous data
+for _n in ["Multiplex", "OnlineEnsemble"]:
     _reg(_n, "forecaster")
 _reg("ExpSmoothing", "forecaster", slow=True)
 _reg("Ensemble-mean", "forecaster", n_jobs=True)
 _reg("Ensemble-median", "forecaster", n_jobs=True)
 _reg("Stacking", "forecaster", n_jobs=True)
-_reg("GridSearch", "forecaster", n_jobs=True)
-_reg("AutoETS-auto", "forecaster", n_jobs=True, slow=True)
+_reg("GridSearch", "forecaster", n_jobs=True, exog=True)
+_reg("AutoETS-auto", "forecaster", n_jobs=True, slow=True, thorough_only=True)
 
 _reg("BOSSEnsemble", "classifier", n_jobs=True, slow=True)
 _reg("IndividualBOSS", "classifier", n_jobs=True)
 _reg("ContractableBOSS", "classifier", n_jobs=True, slow=True)
-_reg("MUSE", "classifier", n_jobs=True, slow=True)
+_reg("MUSE", "classifier", slow=True)
 
-NJOBS_NONE = ["BOSSEnsemble", "ContractableBOSS", "IndividualBOSS", "MUSE", "SFA", "Ensemble-mean",
-              "Stacking", "GridSearch", "AutoETS-auto"]
 
 
 def make(name, seed, n_jobs="default"):
@@ -213,9 +214,10 @@ def make(name, seed, n_jobs="default"):
             "DerivativeSlope": ("summarize", "DerivativeSlopeTransformer", {}),
             "RandomIntervalFeatureExtractor": ("summarize", "RandomIntervalFeatureExtractor",
                                                {"n_intervals": 3, "random_state": seed}),
-            "ContractedShapelet": ("shapelets", "ContractedShapeletTransform",
-                                   {"time_contract_in_mins": 0.004, "random_state": seed,
-                                    "verbose": 0}),
+            "Shapelet": ("shapelets", "ShapeletTransform",
+                         {"min_shapelet_length": 3, "max_shapelet_length": 6,
+                          "max_shapelets_to_store_per_class": 3, "random_state": seed,
+                          "verbose": 0}),
         }
         mod, cls, args = table[name]
         return getattr(importlib.import_module(P + mod), cls)(**args)
@@ -273,7 +275,7 @@ def make(name, seed, n_jobs="default"):
                                                      word_length=4, **kw),
             "ContractableBOSS": lambda: ContractableBOSS(random_state=seed, n_parameter_samples=8,
                                                          max_ensemble_size=3, **kw),
-            "MUSE": lambda: MUSE(random_state=seed, **kw),
+            "MUSE": lambda: MUSE(random_state=seed),
         }
         return table[name]()
     raise KeyError(name)
@@ -299,6 +301,9 @@ def series_data(n, variant, index, seed):
     if variant == "sentinel":
         for p in (2, n // 2):
             v[p] = -999.0
+    if variant == "steps":             # level shift and a flat stretch (ties)
+        v[n // 2:] += 15.0
+        v[3:7] = v[3]
     if index == "range":
         idx = pd.RangeIndex(n)
     elif index == "int":
@@ -334,6 +339,10 @@ def panel_data(ninst, m, variant, container, seed, ncol=1):
     if variant == "missing":
         X[1, 0, 2] = np.nan
         X[ninst - 1, 0, m - 1] = np.nan
+    if variant == "steps":             # level shift, a constant series and duplicated instances
+        X[:, :, m // 2:] += 4.0
+        X[2, 0, :] = 1.5
+        X[ninst - 1] = X[0]
     if container == "numpy3d":
         return X, y
     df = pd.DataFrame({"dim_%d" % c: [pd.Series(X[i, c].copy()) for i in range(ninst)]
@@ -572,9 +581,603 @@ def params_digest(est):
     return hashlib.sha1(_enc_state(p, 0, set(), False).encode()).hexdigest()[:12]
 
 
+def _rng_tokens(o, d, seen, acc):
+    import numpy as np
+    import pandas as pd
+    if isinstance(o, (np.random.RandomState, np.random.Generator)):
+        acc.append(_enc_state(o, 0, set(), True))
+        return
+    if o is None or isinstance(o, (bool, int, str, bytes, float, np.number, pd.Index, pd.Series,
+                                   pd.DataFrame)) or d > 7:
+        return
+    if isinstance(o, np.ndarray):
+        if o.dtype == object:
+            for x in o.ravel()[:500]:
+                _rng_tokens(x, d + 1, seen, acc)
+        return
+    if isinstance(o, (list, tuple, set, frozenset)):
+        for x in list(o)[:2000]:
+            _rng_tokens(x, d + 1, seen, acc)
+        return
+    if isinstance(o, dict):
+        for k, v in sorted(o.items(), key=lambda kv: repr(kv[0]))[:2000]:
+            _rng_tokens(v, d + 1, seen, acc)
+        return
+    mod = type(o).__module__ or ""
+    if (mod.startswith("sktime") or mod.startswith("sklearn") or mod.startswith("props")) \
+            and hasattr(o, "__dict__") and id(o) not in seen:
+        seen.add(id(o))
+        for k, v in sorted(vars(o).items()):
+            _rng_tokens(v, d + 1, seen, acc)
+
+
 def rng_digest(est):
-    """every RandomState reachable from the estimator's state, plus numpy's global RNG"""
+    """state of every RandomState reachable from the estimator, plus numpy's global RNG"""
     import numpy as np
     g = np.random.get_state()
-    own = _enc_state(vars(est), 0, set(), True)
-    return hashlib.sha1(own.encode() + g[1].tobytes() + repr(g[2:]).encode()).hexdigest()[:12]
+    acc = []
+    _rng_tokens(est, 0, set(), acc)
+    return hashlib.sha1("|".join(acc).encode() + g[1].tobytes() + repr(g[2:]).encode()).hexdigest()[:12]
+
+
+# ------------------------------------------------------------------------------------------------
+# scenario runner (driver side)
+
+FH_A = [1, 2, 3]
+FH_B = [2, 5]
+FH_C = [-2, -1, 0]
+
+
+def _reraise_timeout(e):
+    if type(e).__name__ == "_Timeout":
+        raise e
+
+
+def _build(case, shift=0):
+    """Fresh argument objects for the case: (fit args, calls).  An argument is (name, object,
+    passed-by-keyword).  `calls` = [label, method, args]; an argument object that is the string
+    "@Zt" is replaced by (a copy of) the first transform result."""
+    import numpy as np
+    inp = case["input"]
+    kind = CAT[case["est"]]["kind"]
+    if kind == "series":
+        mk = frame_data if inp["container"] == "frame" else series_data
+        Z = mk(inp["n"], inp["variant"], inp["index"], inp["dseed"])
+        Z2 = mk(inp["n"], inp["variant"], inp["index"], inp["dseed"] + 7)
+        fit = [("Z", Z, False)]
+        calls = [["transform", "transform", [("Z", Z, False)]],
+                 ["transform-other", "transform", [("Z", Z2, False)]]]
+        if CAT[case["est"]]["inverse"]:
+            calls.append(["inverse_transform", "inverse_transform", [("Z", "@Zt", False)]])
+        return fit, calls
+    if kind in ("panel", "classifier"):
+        X, y = panel_data(inp["ninst"], inp["m"], inp["variant"], inp["container"], inp["dseed"])
+        X2, _ = panel_data(max(3, inp["ninst"] - 2), inp["m"], inp["variant"], inp["container"],
+                           inp["dseed"] + 7)
+        fit = [("X", X, False), ("y", y, False)]
+        if kind == "panel":
+            calls = [["transform", "transform", [("X", X, False)]],
+                     ["transform-other", "transform", [("X", X2, False)]]]
+        else:
+            calls = [["predict", "predict", [("X", X2, False)]],
+                     ["predict_proba", "predict_proba", [("X", X2, False)]],
+                     ["predict-train", "predict", [("X", X, False)]]]
+        return fit, calls
+    y = series_data(inp["n"], inp["variant"], inp["index"], inp["dseed"])
+    X = Xp = None
+    if inp.get("exog"):
+        import pandas as pd
+        full = series_data(inp["n"] + 6, "clean", inp["index"], inp["dseed"] + 3)
+        Xall = pd.DataFrame({"x1": full.values, "x2": np.arange(len(full), dtype=float)},
+                            index=full.index)
+        X, Xp = Xall.iloc[:inp["n"]], Xall.iloc[inp["n"]:]
+    fit = [("y", y, False), ("X", X, True), ("fh", np.array(FH_A), True)]
+    calls = [["predict", "predict", [("fh", np.array(FH_A), True), ("X", Xp, True)]],
+             ["predict-other-fh", "predict", [("fh", np.array(FH_B), True), ("X", Xp, True)]],
+             ["predict-in-sample", "predict", [("fh", np.array(FH_C), True)]]]
+    return fit, calls
+
+
+def _invoke(est, method, args):
+    pos = [o for _, o, kw in args if not kw]
+    kws = {n: o for n, o, kw in args if kw}
+    try:
+        r = getattr(est, method)(*pos, **kws)
+        return r, snap(r)
+    except Exception as e:  # errors are results too: they must be as repeatable as values
+        _reraise_timeout(e)
+        return None, {"t": "err", "v": type(e).__name__}
+
+
+def _fit(est, fit_args):
+    pos = [o for _, o, kw in fit_args if not kw]
+    kws = {n: o for n, o, kw in fit_args if kw}
+    try:
+        est.fit(*pos, **kws)
+        return None
+    except Exception as e:
+        _reraise_timeout(e)
+        return "%s: %s" % (type(e).__name__, str(e)[:80])
+
+
+def _arg_snaps(args):
+    return [snap(o) for _, o, _ in args]
+
+
+def _arg_diff(args, before):
+    for (n, o, _), b in zip(args, before):
+        d = diff(b, snap(o), "")
+        if d:
+            return "argument %s%s" % (n, d)
+    return None
+
+
+def _resolve(calls, zt):
+    for c in calls:
+        c[2] = [(n, (zt.copy() if zt is not None else None) if isinstance(o, str) and o == "@Zt"
+                 else o, kw) for n, o, kw in c[2]]
+    return calls
+
+
+def _run_est(case):
+    import pickle
+    import joblib
+    import numpy as np
+    name, seed = case["est"], case["seed"]
+    fit_args, calls = _build(case)
+    out = {"fit": {}, "calls": [], "own": None, "pickle_err": None, "njobs_fit": {}}
+
+    # ---- first instance: fit, first pass with before/after comparison of every argument
+    np.random.seed(1234)
+    e1 = make(name, seed)
+    fit_before = _arg_snaps(fit_args)
+    err = _fit(e1, fit_args)
+    out["fit"] = {"err": err, "mod": _arg_diff(fit_args, fit_before)}
+    own = [[[flat(x) for x in fit_before], [flat(snap(o)) for _, o, _ in fit_args]]]
+    zt = None
+    recs = []
+    pristine = []
+    for ci, c in enumerate(calls):
+        if any(isinstance(o, str) for _, o, _ in c[2]):
+            _resolve([c], zt)
+        label, method, args = c
+        before = _arg_snaps(args)
+        pristine.append(before)
+        p0, r0, a0 = params_digest(e1), rng_digest(e1), attr_digests(e1)
+        res, s = _invoke(e1, method, args)
+        if ci == 0 and res is not None and hasattr(res, "copy"):
+            zt = res.copy()
+        a1 = attr_digests(e1)
+        rec = {"label": label, "ref": digest(s), "err": s["v"] if s.get("t") == "err" else None,
+               "kind": s.get("t"), "mod": _arg_diff(args, before),
+               "params_changed": params_digest(e1) != p0, "rng_consumed": rng_digest(e1) != r0,
+               "scratch": sorted(k for k in set(a0) | set(a1) if a0.get(k) != a1.get(k)),
+               "same": {}, "diffs": {}}
+        rec["_snap"] = s
+        recs.append(rec)
+        own.append([[flat(x) for x in before], [flat(snap(o)) for _, o, _ in args]])
+    out["own"] = own
+
+    def compare(tag, est, call_list):
+        for rec, c in zip(recs, call_list):
+            res, s = _invoke(est, c[1], c[2])
+            ok = digest(s) == rec["ref"]
+            rec["same"][tag] = ok
+            if not ok:
+                rec["diffs"][tag] = diff(rec["_snap"], s, "") or "?"
+
+    def compare_rev(tag, est, call_list):
+        for rec, c in list(zip(recs, call_list))[::-1]:
+            res, s = _invoke(est, c[1], c[2])
+            ok = digest(s) == rec["ref"]
+            rec["same"][tag] = ok
+            if not ok:
+                rec["diffs"][tag] = diff(rec["_snap"], s, "") or "?"
+
+    def later_mods(tag, call_list):
+        for rec, c, before in zip(recs, call_list, pristine):
+            d = _arg_diff(c[2], before)
+            if d and not rec["mod"]:
+                rec["mod"] = "%s (during %s)" % (d, tag)
+
+    # ---- repeat, then interleave in reversed order
+    compare("repeat", e1, calls)
+    later_mods("repeat", calls)
+    compare_rev("interleaved", e1, calls)
+    later_mods("interleaved", calls)
+
+    # ---- pickle round trip of the fitted estimator
+    try:
+        ep = pickle.loads(pickle.dumps(e1))
+        compare("pickle", ep, calls)
+    except Exception as e:
+        _reraise_timeout(e)
+        out["pickle_err"] = "%s: %s" % (type(e).__name__, str(e)[:100])
+
+    # ---- fit twice on the same instance
+    fit_before2 = _arg_snaps(fit_args)
+    err2 = _fit(e1, fit_args)
+    if (err2 is None) != (err is None):
+        out["fit"]["refit_err"] = err2
+    if not out["fit"]["mod"]:
+        d2 = _arg_diff(fit_args, fit_before2)
+        out["fit"]["mod"] = d2 and d2 + " (during the second fit)"
+    compare("fit-twice", e1, calls)
+
+    # ---- equal parameters, equal data (fresh objects), different global RNG state
+    def fresh_calls():
+        f2, c2 = _build(case)
+        return f2, _resolve(c2, zt)
+    np.random.seed(98765)
+    np.random.rand(17)
+    f2, c2 = fresh_calls()
+    e2 = make(name, seed)
+    _fit(e2, f2)
+    compare("equal-params", e2, c2)
+
+    # ---- n_jobs under the threading backend
+    if CAT[name]["n_jobs"]:
+        for nj in case.get("n_jobs", []):
+            key = str(nj)
+            with joblib.parallel_backend("threading"):
+                f3, c3 = fresh_calls()
+                ek = make(name, seed, nj)
+                out["njobs_fit"][key] = _fit(ek, f3)
+                compare("n_jobs=" + key, ek, c3)
+    for rec in recs:
+        s = rec.pop("_snap")
+        v = s.get("v") if isinstance(s.get("v"), list) else None
+        rec["preview"] = [round(unbits(x), 6) if isinstance(x, int) else x for x in v[:4]] \
+            if v and s.get("t") != "err" else None
+    out["calls"] = recs
+    return out
+
+
+# ---- EnsembleForecaster with recording members: the observed schedule is fed to the pool model
+
+_LOGS = {}
+_REC = {}
+
+
+def _rec_class():
+    if "cls" in _REC:
+        return _REC["cls"]
+    import threading
+    import time
+    import pandas as pd
+    from sktime.forecasting.base._sktime import (_OptionalForecastingHorizonMixin,
+                                                  _SktimeForecaster)
+
+    class RecordingForecaster(_OptionalForecastingHorizonMixin, _SktimeForecaster):
+        """fit records start/finish (thread-safe list append), waits `delay` seconds, and learns
+        a*tag+b: a pure function of the member's own inputs"""
+
+        def __init__(self, tag=0, delay=0.0, a=10, b=3, log_key=0):
+            self.tag = tag
+            self.delay = delay
+            self.a = a
+            self.b = b
+            self.log_key = log_key
+            super(RecordingForecaster, self).__init__()
+
+        def fit(self, y, X=None, fh=None):
+            self._set_y_X(y, X)
+            self._set_fh(fh)
+            log = _LOGS.setdefault(self.log_key, [])
+            log.append(("start", self.tag, threading.get_ident()))
+            time.sleep(self.delay)
+            self.value_ = self.a * self.tag + self.b
+            log.append(("finish", self.tag, threading.get_ident()))
+            self._is_fitted = True
+            return self
+
+        def _predict(self, fh, X=None, return_pred_int=False, alpha=0.05):
+            idx = fh.to_absolute(self.cutoff).to_pandas()
+            return pd.Series([float(self.value_)] * len(idx), index=idx)
+
+    _REC["cls"] = RecordingForecaster
+    return RecordingForecaster
+
+
+def _run_pool(case):
+    import joblib
+    import numpy as np
+    from sktime.forecasting.compose import EnsembleForecaster
+    Rec = _rec_class()
+    key = len(_LOGS) + 1
+    _LOGS[key] = []
+    tags, delays = case["tags"], case["delays"]
+    members = [("m%d" % i, Rec(tag=t, delay=d / 1000.0, a=case["a"], b=case["b"], log_key=key))
+               for i, (t, d) in enumerate(zip(tags, delays))]
+    y = series_data(12, "clean", "range", 1)
+    y0 = snap(y)
+    ens = EnsembleForecaster(members, n_jobs=case["n_jobs"])
+    with joblib.parallel_backend("threading"):
+        ens.fit(y, fh=np.array([1, 2]))
+    log = list(_LOGS.pop(key))
+    collected = [int(f.value_) for f in ens.forecasters_]
+    pred = ens.predict()
+    pos = {t: i for i, t in enumerate(tags)}
+    return {"collected": collected,
+            "collected_tags": [int(f.tag) for f in ens.forecasters_],
+            "finish_order": [pos[t] for ev, t, _ in log if ev == "finish"],
+            "start_order": [pos[t] for ev, t, _ in log if ev == "start"],
+            "threads": len(set(th for _, _, th in log)),
+            "pred": [float(v) for v in pred.values],
+            "members_untouched": all(not m.is_fitted for _, m in members),
+            "y_mod": diff(y0, snap(y), "")}
+
+
+# ---- _get_intervals over a recorded RNG stream
+
+
+class _RecordingRNG:
+    def __init__(self, rng):
+        self.rng = rng
+        self.log = []
+
+    def randint(self, *a, **k):
+        v = self.rng.randint(*a, **k)
+        self.log.append([int(a[0]) if a else None, int(v)])
+        return v
+
+    def __getattr__(self, n):
+        raise AttributeError("RNG method %s is not modelled" % n)
+
+
+def _run_intervals(case):
+    import numpy as np
+    from sktime.series_as_features.base.estimators.interval_based._tsf import _get_intervals
+    ni, mi, sl, seed = case["n_intervals"], case["min_interval"], case["series_length"], case["seed"]
+    np.random.seed(4242)
+    g0 = np.random.get_state()[1].tobytes()
+    rec = _RecordingRNG(np.random.RandomState(seed))
+    try:
+        iv = _get_intervals(ni, mi, sl, rec)
+    except ValueError as e:
+        return {"err": "ValueError"}
+    g1 = np.random.get_state()[1].tobytes()
+    np.random.seed(777)
+    np.random.rand(5)
+    rs = np.random.RandomState(seed)
+    iv2 = _get_intervals(ni, mi, sl, rs)
+    # a stream positioned after the draws: the remaining stream is a function of the seed too
+    rs2 = np.random.RandomState(seed)
+    _get_intervals(ni, mi, sl, rs2)
+    return {"intervals": [[int(a), int(b)] for a, b in iv], "draws": rec.log,
+            "again": [[int(a), int(b)] for a, b in iv2], "global_untouched": g0 == g1,
+            "next_equal": int(rs.randint(10 ** 6)) == int(rs2.randint(10 ** 6))}
+
+
+def run_impl(case):
+    k = case["kind"]
+    if k == "est":
+        return _run_est(case)
+    if k == "pool":
+        return _run_pool(case)
+    if k == "intervals":
+        return _run_intervals(case)
+    raise AssertionError(k)
+
+
+# ------------------------------------------------------------------------------------------------
+# oracle: the property's sentences on the implementation's behaviour
+
+
+def oracle(case, out):
+    k = case["kind"]
+    if k == "pool":
+        want = [case["a"] * t + case["b"] for t in case["tags"]]
+        if out["collected_tags"] != case["tags"] or out["collected"] != want:
+            return "collection-not-in-task-order: members %s collected as %s (finish order %s)" % (
+                case["tags"], out["collected_tags"], out["finish_order"])
+        if sorted(out["finish_order"]) != list(range(len(case["tags"]))):
+            return "task-not-run-exactly-once: finish order %s" % out["finish_order"]
+        m = sum(want) / float(len(want))
+        if any(abs(p - m) > 1e-9 for p in out["pred"]):
+            return "ensemble-prediction-depends-on-schedule: %s expected %s" % (out["pred"], m)
+        if out["y_mod"]:
+            return "fit-modified-caller-data: EnsembleForecaster argument y%s" % out["y_mod"]
+        if not out["members_untouched"]:
+            return "fit-changed-caller-estimators: members passed to the ensemble were fitted"
+        return None
+    if k == "intervals":
+        if "err" in out:
+            return None
+        if out["again"] != out["intervals"]:
+            return "seeded-sampling-not-reproducible: %s then %s" % (out["intervals"], out["again"])
+        if not out["global_untouched"]:
+            return "seeded-sampling-consumed-global-rng"
+        if not out["next_equal"]:
+            return "seeded-stream-position-differs-after-sampling"
+        return None
+    name = case["est"]
+    f = out["fit"]
+    if f.get("mod"):
+        return "fit-modified-caller-data: %s.fit %s" % (name, f["mod"])
+    if "refit_err" in f:
+        return "fit-twice-differs: %s second fit -> %s, first -> %s" % (name, f["refit_err"], f["err"])
+    for c in out["calls"]:
+        if c["mod"]:
+            return "apply-modified-caller-data: %s.%s %s" % (name, c["label"], c["mod"])
+    for c in out["calls"]:
+        if c["params_changed"]:
+            return "apply-changed-estimator-params: %s.%s changed get_params() values" % (
+                name, c["label"])
+        if c["rng_consumed"]:
+            return "apply-consumed-rng-state: %s.%s advanced a random generator" % (name, c["label"])
+    for tag, clause in (("repeat", "repeat-apply-differs"),
+                        ("interleaved", "interleaved-apply-differs"),
+                        ("fit-twice", "fit-twice-differs"),
+                        ("equal-params", "equal-params-equal-data-differs")):
+        for c in out["calls"]:
+            if c["same"].get(tag) is False:
+                return "%s: %s.%s %s" % (clause, name, c["label"], c["diffs"].get(tag))
+    if out["pickle_err"]:
+        return "pickle-fails: %s %s" % (name, out["pickle_err"])
+    for c in out["calls"]:
+        if c["same"].get("pickle") is False:
+            return "pickle-roundtrip-differs: %s.%s %s" % (name, c["label"], c["diffs"].get("pickle"))
+    njs = [str(x) for x in case.get("n_jobs", [])] if CAT[name]["n_jobs"] else []
+    for key in [x for x in njs if x != "None"] + [x for x in njs if x == "None"]:
+        ferr = out["njobs_fit"].get(key)
+        if ferr and not f["err"]:
+            if key == "None":
+                return "n-jobs-none-rejected: %s fit raised %s with n_jobs=None" % (name, ferr)
+            return "n-jobs-differs: %s fit raised %s with n_jobs=%s" % (name, ferr, key)
+        for c in out["calls"]:
+            if c["same"].get("n_jobs=" + key) is False:
+                return "n-jobs-differs: %s.%s with n_jobs=%s %s" % (
+                    name, c["label"], key, c["diffs"].get("n_jobs=" + key))
+    return None
+
+
+def nontrivial(case, out):
+    k = case["kind"]
+    if k == "pool":
+        return out["finish_order"] != sorted(out["finish_order"]) or out["threads"] > 1
+    if k == "intervals":
+        return bool(out.get("intervals"))
+    return not out["fit"]["err"] and any(c["err"] is None for c in out["calls"])
+
+
+# ------------------------------------------------------------------------------------------------
+# case generation
+
+VARIANTS = ["clean", "outliers", "missing"]
+INDEXES = ["range", "int", "datetime", "period"]
+INDEX_WEIGHTED = ["range", "range", "range", "int", "int", "int", "period", "datetime"]
+
+
+def gen_cases(rng, tier):
+    thorough = tier == "thorough"
+    njobs = [None, 1, 2] + ([4] if thorough else [])
+    seeds = [rng.randint(0, 10 ** 6) for _ in range(20 if thorough else 1)]
+    cases = []
+    for name, d in CAT.items():
+        kind = d["kind"]
+        for si, seed in enumerate(seeds):
+            if si > 0 and not (d["n_jobs"] or "Random" in name or name in (
+                    "Imputer-random", "Rocket", "Shapelet")):
+                continue          # more seeds only for randomised / parallel estimators
+            if si > 3 and d["slow"]:
+                continue
+            if d["thorough_only"] and not thorough:
+                continue
+            variants = list(VARIANTS)
+            if name == "Imputer-sentinel":
+                variants = ["sentinel", "clean", "missing"]
+            if kind in ("forecaster", "classifier"):   # NaN is rejected at fit by all of them
+                variants = ["clean", "outliers", "steps"]
+            for vi, variant in enumerate(variants):
+                if kind in ("series", "forecaster"):
+                    conts = ["series"] + (["frame"] if d["frame"] else [])
+                    for cont in conts:
+                        inp = {"n": rng.choice([24, 28, 32, 36]), "variant": variant,
+                               "index": rng.choice(INDEX_WEIGHTED if kind == "series"
+                                                   else ["range", "int", "range", "int", "period"]),
+                               "container": cont,
+                               "dseed": rng.randint(1, 999)}
+                        if kind == "forecaster":
+                            inp["exog"] = d.get("exog", False) and rng.random() < 0.4
+                        cases.append({"kind": "est", "est": name, "seed": seed, "input": inp,
+                                      "n_jobs": njobs if d["n_jobs"] else []})
+                else:
+                    for cont in ("nested", "numpy3d"):
+                        if d["slow"] and not thorough and (vi + (cont == "nested")) % 2 == 0 \
+                                and variant != "outliers":
+                            continue
+                        inp = {"ninst": rng.choice([6, 8]), "m": rng.choice([16, 20, 24]),
+                               "variant": variant, "container": cont, "dseed": rng.randint(1, 999)}
+                        cases.append({"kind": "est", "est": name, "seed": seed, "input": inp,
+                                      "n_jobs": njobs if d["n_jobs"] else []})
+    for _ in range(24 if not thorough else 120):
+        m = rng.randint(3, 6)
+        tags = rng.sample(range(1, 40), m)
+        # decreasing delays: later tasks finish first whenever >= 2 workers run
+        base = rng.choice([4, 8, 12])
+        delays = [base * (m - i) + rng.randint(0, 3) for i in range(m)]
+        if rng.random() < 0.3:
+            rng.shuffle(delays)
+        cases.append({"kind": "pool", "tags": tags, "delays": delays,
+                      "n_jobs": rng.choice([2, 2, 3, 4] if thorough else [2, 2, 3]),
+                      "a": rng.randint(1, 12), "b": rng.randint(0, 9)})
+    for _ in range(4 if not thorough else 12):
+        m = rng.randint(2, 4)
+        cases.append({"kind": "pool", "tags": rng.sample(range(1, 40), m), "delays": [1] * m,
+                      "n_jobs": rng.choice([None, 1]), "a": rng.randint(1, 12), "b": rng.randint(0, 9)})
+    for _ in range(60 if not thorough else 600):
+        sl = rng.choice([8, 12, 16, 24, 30, 50, 100])
+        mi = rng.choice([3, 3, 3, 4, 5])
+        if rng.random() < 0.15:
+            mi = sl - rng.choice([1, 2])
+        cases.append({"kind": "intervals", "n_intervals": rng.randint(1, 8), "min_interval": mi,
+                      "series_length": sl, "seed": rng.randint(0, 10 ** 6)})
+    return cases
+
+
+def shrink(case):
+    if case["kind"] == "est":
+        c = case
+        if len(c.get("n_jobs", [])) > 1:
+            for nj in c["n_jobs"]:
+                d = dict(c)
+                d["n_jobs"] = [nj]
+                yield d
+        inp = c["input"]
+        for key, lo in (("n", 16), ("ninst", 4), ("m", 12)):
+            if key in inp and inp[key] > lo:
+                d = dict(c)
+                d["input"] = dict(inp, **{key: max(lo, inp[key] - 4)})
+                yield d
+        if inp.get("exog"):
+            d = dict(c)
+            d["input"] = dict(inp, exog=False)
+            yield d
+        if inp.get("index") not in (None, "range"):
+            d = dict(c)
+            d["input"] = dict(inp, index="range")
+            yield d
+        if inp["variant"] != "clean":
+            d = dict(c)
+            d["input"] = dict(inp, variant="clean")
+            yield d
+    elif case["kind"] == "pool" and len(case["tags"]) > 2:
+        for i in range(len(case["tags"])):
+            d = dict(case)
+            d["tags"] = case["tags"][:i] + case["tags"][i + 1:]
+            d["delays"] = case["delays"][:i] + case["delays"][i + 1:]
+            yield d
+    elif case["kind"] == "intervals":
+        for key in ("n_intervals", "series_length"):
+            if case[key] > (1 if key == "n_intervals" else case["min_interval"] + 2):
+                d = dict(case)
+                d[key] = case[key] - 1
+                yield d
+
+
+def distribution(cases, results):
+    import collections
+    d = collections.Counter()
+    for c, r in zip(cases, results):
+        o = r.get("out") or {}
+        if c["kind"] != "est":
+            d[c["kind"]] += 1
+            if c["kind"] == "pool" and o:
+                d["pool:threads=%s" % o.get("threads")] += 1
+                d["pool:schedule-%s" % ("identity" if o.get("finish_order") == sorted(
+                    o.get("finish_order", [])) else "permuted")] += 1
+            continue
+        inp = c["input"]
+        d["est:%s" % CAT[c["est"]]["kind"]] += 1
+        d["variant:%s" % inp["variant"]] += 1
+        d["container:%s" % inp["container"]] += 1
+        if not o:
+            d["driver-error"] += 1
+            continue
+        d["fit:%s" % ("error" if o["fit"]["err"] else "ok")] += 1
+        for call in o["calls"]:
+            d["call:%s" % ("error" if call["err"] else "value")] += 1
+            for a in call["scratch"]:
+                d["scratch-attrs:%s.%s" % (c["est"], a)] += 1
+    return dict(d)
